@@ -45,6 +45,7 @@ class Stats:
         self.samples = []
         self.outcomes = {}       # distinct observed outcome classes -> count
         self.maxima = {}
+        self.sets = {}           # name -> {key: set(values)} merged by union (e.g. printed form -> model keys)
 
     def inc(self, k, n=1):
         self.c[k] = self.c.get(k, 0) + n
@@ -85,21 +86,89 @@ class Stats:
         for s in other.samples:
             if len(self.samples) < 12:
                 self.samples.append(s)
+        for name, table in getattr(other, "sets", {}).items():
+            mine = self.sets.setdefault(name, {})
+            for k, vals in table.items():
+                mine.setdefault(k, set()).update(vals)
         return self
 
 
-_WORK = {}
+def _child_main(worker, chunk, conn):
+    try:
+        st = worker(chunk)
+        conn.send(("ok", st))
+    except BaseException as ex:  # noqa: BLE001
+        import traceback
+        try:
+            conn.send(("error", f"{type(ex).__name__}: {ex}", traceback.format_exc()))
+        except Exception:  # noqa: BLE001
+            pass
+    finally:
+        try:
+            conn.close()
+        except Exception:  # noqa: BLE001
+            pass
+        os._exit(0)
 
 
-def _call_chunk(args):
-    name, chunk = args
-    return _WORK[name](chunk)
+def run_jobs(func, jobs, workers=None):
+    """func(job) in one forked process per job (at most `workers` at a time).  Returns a list aligned with jobs of
+    ('ok', value) or ('died', exit code).  An exception raised by func is re-raised here."""
+    import collections
+    from multiprocessing import connection as mpc
+    n = workers or WORKERS
+    ctx = mproc.get_context("fork")
+    pending = collections.deque(enumerate(jobs))
+    running = {}
+    results = {}
+    failure = None
+    while pending or running:
+        while pending and len(running) < n and failure is None:
+            i, job = pending.popleft()
+            r, w = ctx.Pipe(False)
+            p = ctx.Process(target=_child_main, args=(func, job, w))
+            p.start()
+            w.close()
+            running[i] = (p, r)
+        if failure is not None and not running:
+            break
+        ready = mpc.wait([r for (_, r) in running.values()], timeout=1.0)
+        for i, (p, r) in list(running.items()):
+            got = None
+            if r in ready:
+                try:
+                    got = r.recv()
+                except (EOFError, OSError):
+                    got = ("died", p.exitcode)
+            elif not p.is_alive():
+                try:
+                    got = r.recv() if r.poll(0.5) else ("died", p.exitcode)
+                except (EOFError, OSError):
+                    got = ("died", p.exitcode)
+            if got is None:
+                continue
+            p.join(timeout=5)
+            r.close()
+            del running[i]
+            if got[0] == "error":
+                failure = failure or got
+            else:
+                results[i] = got
+    if failure is not None:
+        for p, r in running.values():
+            p.kill()
+        raise RuntimeError(f"worker failed: {failure[1]}\n{failure[2]}")
+    return [results[i] for i in range(len(jobs))]
 
 
 def pmap_stats(worker, items, chunk=200, name=None, workers=None) -> Stats:
-    """Apply worker(list_of_items) -> Stats over chunks in forked processes; merge in order."""
-    name = name or worker.__name__
-    _WORK[name] = worker
+    """Apply worker(list_of_items) -> Stats over chunks, one forked process per chunk (at most `workers` at a time).
+
+    A process per chunk makes the run robust against changes that crash the interpreter: a chunk whose process dies
+    without delivering a result is reported as a violation (with its first item), the other chunks are unaffected.
+    An exception inside the worker is a defect of the harness and is re-raised here (internal error)."""
+    import collections
+    from multiprocessing import connection as mpc
     items = list(items)
     chunks = [items[i:i + chunk] for i in range(0, len(items), chunk)]
     total = Stats()
@@ -109,9 +178,55 @@ def pmap_stats(worker, items, chunk=200, name=None, workers=None) -> Stats:
             total.merge(worker(ch))
         return total
     ctx = mproc.get_context("fork")
-    with ctx.Pool(n) as pool:
-        for st in pool.imap(_call_chunk, [(name, ch) for ch in chunks]):
-            total.merge(st)
+    pending = collections.deque(enumerate(chunks))
+    running = {}
+    results = {}
+    failure = None
+    while pending or running:
+        while pending and len(running) < n and failure is None:
+            i, ch = pending.popleft()
+            r, w = ctx.Pipe(False)
+            p = ctx.Process(target=_child_main, args=(worker, ch, w))
+            p.start()
+            w.close()
+            running[i] = (p, r)
+        if failure is not None and not running:
+            break
+        ready = mpc.wait([r for (_, r) in running.values()], timeout=1.0)
+        for i, (p, r) in list(running.items()):
+            got = None
+            if r in ready:
+                try:
+                    got = r.recv()
+                except (EOFError, OSError):
+                    got = ("died", p.exitcode)
+            elif not p.is_alive():
+                # the process may have delivered its result and exited after the wait() above returned
+                try:
+                    got = r.recv() if r.poll(0.5) else ("died", p.exitcode)
+                except (EOFError, OSError):
+                    got = ("died", p.exitcode)
+            if got is None:
+                continue
+            p.join(timeout=5)
+            r.close()
+            del running[i]
+            if got[0] == "ok":
+                results[i] = got[1]
+            elif got[0] == "error":
+                failure = failure or got
+            else:
+                st = Stats()
+                first = chunks[i][0]
+                st.violation({"why": f"the process exploring a chunk of {len(chunks[i])} cases died without a result (exit code "
+                                     f"{got[1]}): the library crashed or exhausted the interpreter; first case of the chunk: {first!r}"[:600]})
+                results[i] = st
+    if failure is not None:
+        for p, r in running.values():
+            p.kill()
+        raise RuntimeError(f"worker failed: {failure[1]}\n{failure[2]}")
+    for i in sorted(results):
+        total.merge(results[i])
     return total
 
 
